@@ -166,3 +166,17 @@ Definition C04_check (bs : nat) (scr : script) (o : obs) : bool :=
 Definition obs_eqb (a b : obs) : bool :=
   lines_eqb (o_ret a) (o_ret b) && lines_eqb (o_end a) (o_end b) &&
   Nat.eqb (o_nerr a) (o_nerr b) && Nat.eqb (o_rae a) (o_rae b) && bytes_eqb (o_del a) (o_del b).
+
+(* linear-time versions used when evaluating long streams (List.rev is quadratic) *)
+Definition drop_cr_fast (racc : list byte) : list byte :=   (* takes the REVERSED line *)
+  match racc with
+  | b :: r => if N.eqb b CR then rev_append r [] else rev_append racc []
+  | [] => []
+  end.
+Fixpoint lines_fast_aux (acc : list byte) (s : list byte) : list (list byte) :=
+  match s with
+  | [] => match acc with [] => [] | _ => [rev_append acc []] end
+  | b :: r => if N.eqb b NL then drop_cr_fast acc :: lines_fast_aux [] r
+              else lines_fast_aux (b :: acc) r
+  end.
+Definition lines_fast (s : list byte) := lines_fast_aux [] s.
